@@ -132,7 +132,8 @@ pub fn gen_case(rng: &mut Rng, corpus: &[(String, Vec<u8>)], idx: usize) -> CliC
             minimal = true;
         }
     }
-    let threshold = match rng.below(8) {
+    let threshold = match rng.below(10) {
+        8 => Some(rng.pick(&["NaN", "nan", "inf", "-inf", "1.0000001", "-0.0"]).to_string()),
         0 => Some("1.5".to_string()),
         1 => Some("-0.1".to_string()),
         2 => Some("0.5".to_string()),
@@ -175,6 +176,26 @@ pub fn run(prop: &'static str, thorough: bool, seed: u64) -> Report {
         let dir = std::fs::canonicalize(&dir).unwrap();
         for (nm, c) in &case.files {
             std::fs::write(dir.join(nm), c).unwrap();
+        }
+        // a stale, longer sibling left over from an earlier run (the tool must replace it completely)
+        if case.normalize && !case.replace && (idx / 12) % 2 == 0 {
+            let thr0: f32 = case.threshold.as_ref().and_then(|t| t.parse().ok()).unwrap_or(0.2);
+            let mut s0 = Sett::default();
+            s0.thr = thr0;
+            for (nm, c) in &case.files {
+                if let Ok(Ok(ms)) = real_detect_raw(c, &s0) {
+                    if let Some(b) = ms.get_best() {
+                        let target = match nm.rsplit_once('.') {
+                            None => format!("{}.{}", nm, b.encoding()),
+                            Some((a, e)) => format!("{}.{}.{}", a, b.encoding(), e),
+                        };
+                        if !case.files.iter().any(|f| f.0 == target) {
+                            let stale: Vec<u8> = std::iter::repeat(b'Z').take(c.len() * 3 + 4096).collect();
+                            let _ = std::fs::write(dir.join(&target), stale);
+                        }
+                    }
+                }
+            }
         }
         let before = snapshot(&dir);
         // library view of every input, with the threshold the tool will use
